@@ -1306,7 +1306,7 @@ namespace vh
     bp.small_ = small;
     using BE = micm::BackwardEuler<micm::ProcessSet, micm::LinearSolver<SM>>;
     bool conv = BE::IsConverged(bp, E, Yn, atol, rtol);
-    return "norm e=" + hexd(e) + " conv=" + (conv ? "1" : "0");
+    return "norm e=" + hexd(e) + " ef=" + hexd(e) + " conv=" + (conv ? "1" : "0");
   }
 
   // ---------------------------------------------------------------- flat-storage dumps (whole AsVector(), padding included)
@@ -1335,12 +1335,9 @@ namespace vh
     return o.os.str();
   }
 
-  template<std::size_t L, bool CSC>
-  std::string KernelCfg<L, CSC>::luflat(Tok& t, std::size_t n, std::size_t blocks)
+  template<class DM, class SM, class LU>
+  std::string luflatSeparate(Tok& t, std::size_t n, std::size_t blocks)
   {
-    using DM = typename DenseOf<L>::type;
-    using SM = SparseOf<L, CSC>;
-    using LU = micm::LuDecompositionDoolittle;
     std::size_t ne = t.nat();
     auto es = readPairs(t, ne);
     auto avals = t.flts(blocks * es.size());
@@ -1368,6 +1365,83 @@ namespace vh
       o.d(v);
     o.key("x");
     for (auto v : x.AsVector())
+      o.d(v);
+    return o.os.str();
+  }
+
+  template<class DM, class SM, class LU>
+  std::string luflatInPlace(Tok& t, std::size_t n, std::size_t blocks)
+  {
+    std::size_t ne = t.nat();
+    auto es = readPairs(t, ne);
+    auto avals = t.flts(blocks * es.size());
+    double garbage = t.flt();
+    (void)garbage;
+    auto b = t.flts(blocks * n);
+    SM A = makeSparse<SM>(n, blocks, es, 0.0);
+    micm::LinearSolverInPlace<SM, LU> ls(A, 0);
+    SM M = LU::template GetLUMatrix<SM>(A, 0);
+    {
+      std::size_t i = 0;
+      for (std::size_t bl = 0; bl < blocks; ++bl)
+        for (auto& e : es)
+          M[bl][e.first][e.second] = avals[i++];
+    }
+    ls.Factor(M);
+    DM x = denseFrom<DM>(blocks, n, b);
+    ls.template Solve<DM>(x, M);
+    Out o;
+    o.os << "luflat";
+    o.key("L");
+    for (auto v : M.AsVector())
+      o.d(v);
+    o.key("U");
+    o.key("x");
+    for (auto v : x.AsVector())
+      o.d(v);
+    return o.os.str();
+  }
+
+  template<std::size_t L, bool CSC>
+  std::string KernelCfg<L, CSC>::luflat(Tok& t, std::size_t kind, std::size_t n, std::size_t blocks)
+  {
+    using DM = typename DenseOf<L>::type;
+    using SM = SparseOf<L, CSC>;
+    switch (kind)
+    {
+      case 0: return luflatSeparate<DM, SM, micm::LuDecompositionDoolittle>(t, n, blocks);
+      case 1: return luflatSeparate<DM, SM, micm::LuDecompositionMozart>(t, n, blocks);
+      case 2: return luflatInPlace<DM, SM, micm::LuDecompositionDoolittleInPlace>(t, n, blocks);
+      default: return luflatInPlace<DM, SM, micm::LuDecompositionMozartInPlace>(t, n, blocks);
+    }
+  }
+
+  template<std::size_t L, bool CSC>
+  std::string KernelCfg<L, CSC>::alphaflat(Tok& t, std::size_t n, std::size_t blocks)
+  {
+    using DM = typename DenseOf<L>::type;
+    using SM = SparseOf<L, CSC>;
+    std::size_t ne = t.nat();
+    auto es = readPairs(t, ne);
+    double alpha = t.flt();
+    SM J = makeSparse<SM>(n, blocks, es, 0.0);
+    for (std::size_t i = 0; i < J.AsVector().size(); ++i)
+      J.AsVector()[i] = (double)i;
+    auto diag = J.DiagonalIndices(0);
+    // any Rosenbrock solver object of this layout serves: AlphaMinusJacobian does not read the solver
+    auto a = micm::Species("a");
+    auto solver = micm::CpuSolverBuilder<micm::RosenbrockSolverParameters, DM, SM>(
+                      micm::RosenbrockSolverParameters::ThreeStageRosenbrockParameters())
+                      .SetSystem(micm::System(micm::SystemParameters{ .gas_phase_ = micm::Phase{ std::vector<micm::Species>{ a } } }))
+                      .SetReactions({ micm::Process::Create().SetReactants({ a }).SetProducts({}).SetRateConstant(
+                          micm::UserDefinedRateConstant({ .label_ = "r" })) })
+                      .SetNumberOfGridCells(1)
+                      .Build();
+    solver.solver_.AlphaMinusJacobian(J, diag, alpha);
+    Out o;
+    o.os << "alphaflat";
+    o.key("J");
+    for (auto v : J.AsVector())
       o.d(v);
     return o.os.str();
   }
